@@ -952,7 +952,10 @@ func (d *dealer) syncCall(caller *wamp.Session, msg *wamp.Call) {
 	//
 	// The error message that is returned to the Caller MUST use
 	// wamp.error.timeout as the reason URI.
-	if timeout > 0 {
+	//
+	// The timer is started with the first chunk of a progressive call; the
+	// following chunks do not start further timers, which nothing would stop.
+	if timeout > 0 && invk.timerCancel == nil {
 		// Timer removed if context canceled, call cancelled if timeout.
 		var timerCtx context.Context
 		timerCtx, invk.timerCancel = context.WithTimeout(context.Background(),
